@@ -58,9 +58,37 @@ func New(params string) (xstate.Model, error) {
 
 func (m *model) has(o string) bool { return strings.Contains(m.p.Oracles, o) }
 
+type initMeta struct {
+	Users map[string]entity.Id
+	Bug0  entity.Id
+}
+
 func (m *model) Init(dir string) error {
 	vctl.Activate(m.p.Seed, m.p.TimeMode)
 	m.names = []string{"A", "B", "C"}[:m.p.Replicas]
+	if meta, ok, err := world.RestoreTemplate(dir); err != nil {
+		return err
+	} else if ok {
+		var im initMeta
+		if err := json.Unmarshal(meta, &im); err != nil {
+			return err
+		}
+		w, err := world.Open(dir, m.names, []string{"R"}, nil)
+		if err != nil {
+			return err
+		}
+		w.Users = im.Users
+		m.w, m.bug0 = w, im.Bug0
+		return nil
+	}
+	if err := m.build(dir); err != nil {
+		return err
+	}
+	meta, _ := json.Marshal(initMeta{Users: m.w.Users, Bug0: m.bug0})
+	return world.SaveTemplate(dir, meta)
+}
+
+func (m *model) build(dir string) error {
 	w, err := world.Create(dir, m.names, []string{"R"}, m.p.Peers)
 	if err != nil {
 		return err
